@@ -269,6 +269,32 @@ def step (st : DState) (line : String) : DState × String :=
         | none => (st, "raise")
       else (st, "bad-op")
     | _ => (st, "bad-op")
+  | "refine" :: sys :: fl :: fu :: rest =>
+    -- refine <system> <refLat T|F> <refU T|F> cell(6, radians) U(9) hkl(3) pos(6, radians) wl
+    match parseFloats rest with
+    | some [a1, a2, a3, l1, l2, l3, u0,u1,u2,u3,u4,u5,u6,u7,u8, h, k, l, mu, de, nu, et, ch, ph, wl] =>
+      let q := Gen.get_q_phi mu de nu et ch ph
+      match Refine.refineUb sys (a1, a2, a3, l1, l2, l3) ⟨u0,u1,u2,u3,u4,u5,u6,u7,u8⟩ ⟨h, k, l⟩ q wl (fl == "T") (fu == "T") with
+      | .ok (c, s) =>
+        let sm (m : Option (M3 Float)) : String := match m with | some m => showM3 m | none => "none"
+        (st, s!"ok {showFloat c.1} {showFloat c.2.1} {showFloat c.2.2.1} {showFloat c.2.2.2.1} {showFloat c.2.2.2.2.1} {showFloat c.2.2.2.2.2} | {sm s.U} | {sm s.UB}")
+      | .error e => (st, showPErr e)
+    | _ => (st, "bad-op")
+  | "fitun" :: rest =>
+    -- fitun {hkl(3) pos(6, radians) energy}...
+    match parseFloats rest with
+    | some xs =>
+      let rec grp : List Float → Option (List (V3 Float × V3 Float × Float))
+        | [] => some []
+        | h :: k :: l :: mu :: de :: nu :: et :: ch :: ph :: en :: r =>
+          (grp r).map fun t => (⟨h, k, l⟩, Gen.get_q_phi mu de nu et ch ph, en) :: t
+        | _ => none
+      match grp xs with
+      | some refl =>
+        let (U, c) := Refine.fitUncon refl
+        (st, s!"ok {showM3 U} | {showFloat c.1} {showFloat c.2.1} {showFloat c.2.2.1} {showFloat c.2.2.2.1} {showFloat c.2.2.2.2.1} {showFloat c.2.2.2.2.2}")
+      | none => (st, "bad-op")
+    | none => (st, "bad-op")
   | "polar.fwd" :: rest =>
     match parseFloats rest with
     | some [u0,u1,u2,u3,u4,u5,u6,u7,u8, h, k, l, pol, az] =>
